@@ -51,7 +51,7 @@ def main():
     if auto: args.remove('--auto')
     if '--props' in args:
         i = args.index('--props'); props = args[i + 1].split(','); del args[i:i + 2]
-    names = args or sorted(os.listdir(os.path.join(V, 'benign')))
+    names = args or sorted(n for n in os.listdir(os.path.join(V, 'benign')) if os.path.isdir(os.path.join(V, 'benign', n)))
     wrong = 0
     with ThreadPoolExecutor(max_workers=7) as ex:
         # --auto together with --props: the intersection (re-running only the checks whose rules changed)
